@@ -52,8 +52,8 @@ theorem runRange_growth (passes : Array PassT) (c : Ctx) (lo hi fuel : Nat) (c' 
     c'.seg.numGlyphs ≤ c.seg.numGlyphs * 64 ∨ c'.seg.numGlyphs = c.seg.numGlyphs := by
   unfold runRange at h
   simp only [] at h
-  generalize hc0 : ({ c with maxSize := c.seg.numGlyphs * 64, highwater := none, highpassed := false, status := Status.finished } : Ctx) = c0 at h
-  have hseg0 : c0.seg.numGlyphs = c.seg.numGlyphs := by rw [← hc0]
+  generalize hc0 : (c.beginRange (c.seg.numGlyphs * 64)) = c0 at h
+  have hseg0 : c0.seg.numGlyphs = c.seg.numGlyphs := by rw [← hc0]; rfl
   have gen : ∀ (ks : List Nat) (acc : Except String (Option Ctx)),
       (∀ a, acc = .ok (some a) → a.seg.numGlyphs ≤ c.seg.numGlyphs * 64 ∨ a.seg.numGlyphs = c.seg.numGlyphs) →
       ∀ a, ks.foldl (fun (acc : Except String (Option Ctx)) k =>
